@@ -112,7 +112,7 @@ class ListMapModel(Model):
         "strs": 's1: [str...] = ["a"]\nsa = s1\nup = fn(x: str) -> str {\n\treturn x + "!"\n}\nisb = fn(x: str) -> bool {\n\treturn x == "b"\n}\n',
         "opts": 'o1: [int?...] = [nil]\noa = o1\nbsrc: [int...] = [5, 1, 2]\n',
         "nested": 'in0: [int...] = [1]\nn1: [[int...]...] = [in0, []]\nn2: [[int...]...] = []\n',
-        "maps": 'm1 = map[str, int]\nma = m1\nm2 = map[str, int]\nm2["a"] = 1\n',
+        "maps": 'm1 = map[str, int]\nma = m1\nm2 = map[str, int]\nm2["a"] = 1\nkl: [str...] = ["a", "b"]\n',
         "xfer": 'l1: [int...] = [1, 2]\nl2: [int...] = []\nm1 = map[str, int]\nidf = fn(x: int) -> int {\n\treturn x\n}\n'
                 'el0 = fn() -> int {\n\treturn l1[0]\n}\nel0m = fn(x: int) -> int {\n\treturn l1[0]\n}\nbq: [bool...] = [true]\nkeepq = fn(x: int) -> bool {\n\treturn bq[0]\n}\n',
     }
@@ -239,6 +239,8 @@ class ListMapModel(Model):
                     out.append(("mset", name, k, 2 if name != "ma" else 7))
                     out.append(("mread", name, k))
                     if full:
+                        # the key itself is read out of a list (`m1[kl[0]] = 3`): a reference into that list, not a plain value
+                        out += [("msetk", name, k, 3), ("maddsetk", name, k, 1), ("mreadk", name, k)]
                         out += [("maddset", name, k, 1), ("mreplace", name, k, 5), ("mremove", name, k), ("mcontains", name, k)]
                         cur = st[name].d.get(k)
                         if isinstance(cur, int):
@@ -372,11 +374,11 @@ class ListMapModel(Model):
             if not inrange(lst, op[2]):
                 return obs, True
             lst.items[op[2]] = L([6, 6])
-        elif k == "mset":
+        elif k in ("mset", "msetk"):
             st[op[1]].d[op[2]] = op[3]
-        elif k == "mread":
+        elif k in ("mread", "mreadk"):
             obs.append(show(st[op[1]].d.get(op[2])))
-        elif k == "maddset":
+        elif k in ("maddset", "maddsetk"):
             d = st[op[1]].d
             if op[2] not in d:
                 return obs, True
@@ -506,6 +508,12 @@ class ListMapModel(Model):
             s = f"{op[1]}.push([5])\n"
         elif k == "inner_set":
             s = with_idx(op[2], f"{op[1]}[{iv}] = [6, 6]\n")
+        elif k == "msetk":
+            s = f"{op[1]}[kl[{0 if op[2] == 'a' else 1}]] = {op[3]}\n"
+        elif k == "maddsetk":
+            s = f"{op[1]}[kl[{0 if op[2] == 'a' else 1}]] += {op[3]}\n"
+        elif k == "mreadk":
+            s = f"print {op[1]}[kl[{0 if op[2] == 'a' else 1}]]\n"
         elif k == "mset":
             s = f"{op[1]}[{lit(op[2])}] = {op[3]}\n"
         elif k == "mread":
@@ -627,7 +635,7 @@ class VariantModel(ListMapModel):
     def prelude(self, tpl):
         p = ListMapModel.prelude(self, self.base(tpl))
         if "~int" in tpl:
-            p = p.replace("map[str, int]", "map[int, int]").replace('"a"', "1").replace('"b"', "2")
+            p = p.replace("map[str, int]", "map[int, int]").replace('"a"', "1").replace('"b"', "2").replace("kl: [str...]", "kl: [int...]")
         return p
 
     def op_src(self, tpl, op, k_):
